@@ -7,8 +7,8 @@ equality, one grid unit below or one above:
    capl   demand_linehaul + used_capacity_linehaul > vehicle_capacity
    capb   demand_backhaul + used_capacity_backhaul > vehicle_capacity
    limit  current_route_length + d_ij + d_j0 * ~open > distance_limit
-   twc    arrival_time < late_tw                       (customer deadline)
-   twd    max(arrival, early) + service + d_j0 < late_tw[depot]   (closed routes)
+   twc    arrival_time <= late_tw                      (customer deadline)
+   twd    max(arrival, early) + service + d_j0 <= late_tw[depot]  (closed routes)
    odep   open route whose (uncharged) way back would miss the depot deadline (checker site)
    speed  speed 2.0 / 0.5 (travel time != distance)
 """
@@ -89,10 +89,9 @@ class MTVRPAdapter(RoutingAdapter):
             for k, p in enumerate(PRESETS):
                 out.append({"num_loc": sizes[k % len(sizes)], "preset": p})
         else:
-            sizes = [3, 4, 6, 10, 20]
+            sizes = [4, 6, 10, 20, 3, 8, 5, 15]
             for k, p in enumerate(PRESETS):
-                for n in (sizes[k % 5], sizes[(k + 2) % 5]):
-                    out.append({"num_loc": n, "preset": p})
+                out.append({"num_loc": sizes[k % len(sizes)], "preset": p})
         return out
 
     _rot = 0
@@ -102,7 +101,7 @@ class MTVRPAdapter(RoutingAdapter):
         """quick tier: two walks per instance, rotating through the chooser kinds (16 variants x 6 instances already give
         the spread); thorough: all of them"""
         if tier == "thorough":
-            return ["uniform", "depot_first", "depot_last", "high"]
+            return ["uniform", "depot_first", "depot_last"]
         k = MTVRPAdapter._rot
         MTVRPAdapter._rot = (k + 2) % len(self._cycle)
         return [self._cycle[k], self._cycle[k + 1]]
@@ -299,6 +298,48 @@ class MTVRPAdapter(RoutingAdapter):
         locs = td_reset["locs"][0]
         return get_distance(locs[:, None, :], locs[None, :, :])
 
+    _dist_cache = None
+
+    def dist_consistent(self, td):
+        """The model has ONE distance matrix and ONE travel-time matrix per instance; the code computes distances in four
+        places with different tensor shapes.  Bitwise comparison of all of them with the matrices handed to the model:
+        get_action_mask d_ij (gathered current node [B,1,2] against locs [B,N,2]), get_action_mask d_j0, _step /
+        check_solution_validity (pairs [B,2]), _get_reward (sequences [B,L,2]); and of the three ways the code divides by
+        the speed ([B,N]/[B,1] in the mask, [B,1]/[B,1] in _step, [B]/[B] in the checker)."""
+        from rl4co.utils.ops import get_distance, gather_by_index
+        if self._dist_cache is None:
+            self._dist_cache = {}
+        key = id(td)
+        hit = self._dist_cache.get(key)
+        if hit is not None and hit[0] is td:
+            return hit[1]
+        locs = td["locs"][:1]
+        n1 = locs.shape[1]
+        D = self.dist_matrix(td)
+        sp = td["speed"][:1]
+        T = D / sp[0]
+        idx = torch.arange(n1)
+        ok = True
+        for i in range(n1):
+            cur = torch.tensor([i])
+            d_ij = get_distance(gather_by_index(locs, cur)[..., None, :], locs)            # mask
+            ok = ok and torch.equal(d_ij[0], D[i]) and torch.equal((d_ij / sp)[0], T[i])
+        d_j0 = get_distance(locs, locs[..., 0:1, :])
+        ok = ok and torch.equal(d_j0[0], D[:, 0]) and torch.equal((d_j0 / sp)[0], T[:, 0])
+        pa, pb = idx.repeat_interleave(n1), idx.repeat(n1)
+        big = locs.expand(n1 * n1, n1, 2)
+        d_step = get_distance(gather_by_index(big, pa), gather_by_index(big, pb))             # _step / checker: [B,2] pairs
+        ok = ok and torch.equal(d_step.reshape(n1, n1), D)
+        ok = ok and torch.equal((d_step[..., None] / sp.expand(n1 * n1, 1)).reshape(n1, n1), T)      # _step
+        ok = ok and torch.equal((d_step / sp.expand(n1 * n1, 1).squeeze(-1)).reshape(n1, n1), T)     # checker
+        seq_a, seq_b = pa[None, :], pb[None, :]
+        d_rew = get_distance(gather_by_index(locs, seq_a), gather_by_index(locs, seq_b))       # _get_reward: [B,L,2]
+        ok = ok and torch.equal(d_rew.reshape(n1, n1), D)
+        self._dist_cache[key] = (td, bool(ok))
+        if len(self._dist_cache) > 4000:
+            self._dist_cache.clear()
+        return bool(ok)
+
     def is_exact(self, td):
         """all data on the grids on which every float32 operation of the env is exact"""
         sp = float(td["speed"][0, 0])
@@ -310,6 +351,8 @@ class MTVRPAdapter(RoutingAdapter):
                 and on_grid(td["service_time"], U))
 
     def coq_instance(self, env, td_reset, variant):
+        if not self.dist_consistent(td_reset):
+            raise ValueError("the code's own distance computations disagree bitwise on this instance")
         D = self.dist_matrix(td_reset)
         T = D / td_reset["speed"][0]
         zl = lambda t: clist(zc(zs_inf(v)) for v in t.reshape(-1).tolist())
@@ -409,7 +452,25 @@ class MTVRPAdapter(RoutingAdapter):
         return sols
 
     # ---------------------------------------------------------------- signatures: env / feature: mechanism
+    @staticmethod
+    def clock_ok(S, acts, use_speed):
+        """the time loop of check_solution_validity in exact rationals, clocking with distance / speed (as the code does
+        since /repo ea27328) or with the plain distance (as it did before); like the code it tests the depot's deadline on
+        every depot visit, open routes included"""
+        M = S["T"] if use_speed else S["D"]
+        t, node = Fraction(0), 0
+        for a in acts:
+            t = max(t + M[node][a], S["lo"][a])
+            if S["hi"][a] is not None and t > S["hi"][a]:
+                return False
+            t, node = t + S["sv"][a], a
+            if a == 0:
+                t = Fraction(0)
+        return True
+
     def signature(self, item, tag, step):
+        """<env>/<feature>: <mechanism> for the mechanisms that are understood (each is a recorded finding, open or fixed);
+        <env>/<preset>: <generic tag> otherwise"""
         from vt.envprops import CONCRETE
         base = CONCRETE.get(tag, "tag%d" % tag)
         try:
@@ -421,14 +482,17 @@ class MTVRPAdapter(RoutingAdapter):
             tight = any(t for _, t in fl)
             speed = float(item.td_in["speed"][0, 0])
             has_tw = any(h is not None for h in S["hi"])
+            in_range = all(0 <= a < len(S["dl"]) for a in acts)
             if tag == 16 and has_tw and tight:
-                return "mtvrp/TW: mask-hides-visit-arriving-exactly-at-deadline"
-            if tag == 14 and speed != 1.0 and has_tw:
-                return "mtvrp/TW,speed!=1: checker-ignores-speed"
-            if tag == 14 and S["open"] and has_tw:
-                return "mtvrp/O+TW: checker-enforces-depot-deadline-on-open-route"
-            if tag == 15:
+                return "mtvrp/TW: mask-hides-visit-arriving-exactly-at-deadline"            # fixed by /repo 9b8ead8
+            if tag == 14 and in_range and has_tw:
+                if S["open"] and not self.clock_ok(S, acts, True):
+                    return "mtvrp/O+TW: checker-enforces-depot-deadline-on-open-route"       # open
+                if speed != 1.0 and self.clock_ok(S, acts, True) and not self.clock_ok(S, acts, False):
+                    return "mtvrp/TW,speed!=1: checker-ignores-speed"                        # fixed by /repo ea27328
+            if tag == 15 and in_range:
                 unclosed = bool(acts) and acts[-1] != 0
+                slow_clock_ok = speed != 1.0 and self.clock_ok(S, acts, False)
                 mech, unexplained = set(), not faults
                 for k, (fr_, _) in enumerate(fl):
                     for x in fr_:
@@ -436,17 +500,17 @@ class MTVRPAdapter(RoutingAdapter):
                             mech.add("prec")
                         elif x in ("limit", "depot-window") and unclosed and k == len(fl) - 1:
                             mech.add("ret")
-                        elif x in ("window", "depot-window") and speed != 1.0:
+                        elif x in ("window", "depot-window") and slow_clock_ok:
                             mech.add("speed")
                         else:
                             unexplained = True
                 if not unexplained:
                     if "prec" in mech:
-                        return "mtvrp/B: checker-misses-linehaul-after-backhaul"
+                        return "mtvrp/B: checker-misses-linehaul-after-backhaul"             # open
                     if "ret" in mech:
-                        return "mtvrp/L|TW: checker-skips-final-return-leg"
+                        return "mtvrp/L|TW: checker-skips-final-return-leg"                  # open
                     if "speed" in mech:
-                        return "mtvrp/TW,speed!=1: checker-ignores-speed"
+                        return "mtvrp/TW,speed!=1: checker-ignores-speed"                    # fixed by /repo ea27328
         except Exception:
             pass
         return "%s/%s: %s" % (self.name, self.variant_tag(item.variant), base)
@@ -494,10 +558,14 @@ class MTVRPAdapter(RoutingAdapter):
     # ---------------------------------------------------------------- instance flags (wfb / solvableb / metricb), every property
     def flags(self, ctx, items):
         seen, cases = {}, []
+        n_chk = n_bad = 0
         for it in items:
             key = id(it.td_in)
             if key in seen:
                 continue
+            n_chk += 1
+            if not self.dist_consistent(it.td_reset):
+                n_bad += 1        # such an instance is not handed to the model (coq_instance raises, counted not_representable)
             try:
                 seen[key] = len(cases)
                 cases.append(self.coq_instance(it.env, it.td_reset, it.variant))
@@ -510,7 +578,9 @@ class MTVRPAdapter(RoutingAdapter):
                "solvableb_false": sum(1 for c in codes if not c & 2), "metricb_false": sum(1 for c in codes if not c & 4)}
         for k, v in out.items():
             ctx.count("%s/flags/%s" % (self.name, k), v)
-        return {"flags": out}
+        ctx.count("%s/distance_data/instances_compared" % self.name, n_chk)
+        ctx.count("%s/distance_data/inconsistent" % self.name, n_bad)
+        return {"flags": out, "distance_data": {"instances_compared": n_chk, "inconsistent": n_bad}}
 
     def extra_c01(self, ctx, tier, items):
         return self.flags(ctx, items)
@@ -520,6 +590,11 @@ class MTVRPAdapter(RoutingAdapter):
 
     def extra_c03(self, ctx, tier, items):
         return self.flags(ctx, items)
+
+    def extra_c04(self, ctx, tier, items):
+        out = self.flags(ctx, items)
+        out.update(super().extra_c04(ctx, tier, items) or {})
+        return out
 
     # ---------------------------------------------------------------- C05: spec enumeration vs exhaustive mask expansion
     def extra_c05(self, ctx, tier, items):
@@ -592,7 +667,11 @@ class MTVRPAdapter(RoutingAdapter):
     def extra_c06(self, ctx, tier, items):
         from vt.envprops import CONCRETE
         out = self.flags(ctx, items)
-        out.update(super().extra_c06(ctx, tier, items) or {})
+        # corruptions (base class): at most 100 complete episodes (8 corruptions each) also in the thorough tier
+        done_items = [it for it in items if it.ep.complete]
+        if len(done_items) > 100:
+            done_items = ctx.rng.sample(done_items, 100)
+        out.update(super().extra_c06(ctx, tier, done_items) or {})
         env = self.witness_env()
         cases, meta = [], []
         for name, td, acts in self.witnesses():
